@@ -2,6 +2,9 @@
   Driver for the agent signing model.  Request:
     sign <blob hex> <inner hex|none> <data hex> <alg: none | u:<utf-8 hex>> <reply stream hex> <caps: - | n,n,…>
   Reply:  <bytes written to the agent, hex> | ok <sig hex>  /  … | err lost  /  … | err nosign
+    signseq <blob>/<inner>/<data>/<alg>/<reply>/<caps> …     successive requests on ONE connection; the agent appends
+                                                             <reply> (and <caps>) to the stream when request i is written
+  Reply:  ok <sig> ; err lost ; …  (one per request)  || <unread bytes left on the connection, hex>
 -/
 import PV.Model.Agent
 import PV.Base.DriverIO
@@ -32,6 +35,24 @@ def step (line : String) : String :=
          | .error .cannotSign => "err nosign"
          | .error .fuel => "err fuel")
     | _, _, _, _, _, _ => "bad-op"
+  | "signseq" :: rs =>
+    let parseReq (t : String) : Option Req :=
+      match t.splitOn "/" with
+      | [blob, inner, data, alg, reply, caps] =>
+        match ofHex? blob, parseInner inner, ofHex? data, parseAlg alg, ofHex? reply, parseCaps caps with
+        | some blob, some inner, some data, some alg, some reply, some caps =>
+          some { key := { blob := blob, inner := inner }, data := data, algorithm := alg, reply := reply, caps := caps }
+        | _, _, _, _, _, _ => none
+      | _ => none
+    match rs.mapM parseReq with
+    | some reqs =>
+      let r := signSession { data := [], caps := [] } reqs
+      " ; ".intercalate (r.1.map fun x => match x.2 with
+         | .ok sig => "ok " ++ toHexTok sig
+         | .error .lostAgent => "err lost"
+         | .error .cannotSign => "err nosign"
+         | .error .fuel => "err fuel") ++ " || " ++ toHexTok r.2.data
+    | none => "bad-op"
   | ["flag", alg] =>
     match parseAlg alg with
     | some a => toString (flagFor a)
